@@ -541,3 +541,58 @@ func hasKey(m map[string][]byte, k string) bool {
 	_, ok := m[k]
 	return ok
 }
+
+// optionalPacket returns a packet a PAR 2.0 reader need not interpret: each of the specification's optional types
+// in several shapes (typical, empty arrays, all-zero bodies, zero sizes).  A reader that interprets such a packet
+// must survive it and still see the same set; a reader that does not must ignore it.  k in 1..15; nil otherwise.
+func optionalPacket(setID [16]byte, id0 [16]byte, name0 string, sliceSize int, k int) []byte {
+	mk := func(name string) [16]byte {
+		var t [16]byte
+		copy(t[:], "PAR 2.0\x00"+name)
+		return t
+	}
+	uniName := []byte{}
+	for _, r := range name0 {
+		uniName = append(uniName, byte(r), 0) // UTF-16LE of the same (ASCII) name
+	}
+	for (16+len(uniName))%4 != 0 {
+		uniName = append(uniName, 0)
+	}
+	switch k {
+	case 1:
+		return refpar2.Frame(setID, mk("UniFileN"), append(append([]byte{}, id0[:]...), uniName...))
+	case 2:
+		return refpar2.Frame(setID, mk("CommASCI"), []byte("a comment.  "))
+	case 3:
+		return refpar2.Frame(setID, mk("CommUni\x00"), append(make([]byte, 16), 'c', 0, 'o', 0))
+	case 4:
+		return refpar2.Frame(setID, mk("FileSlic"), append(append([]byte{}, id0[:]...), 0, 0, 0, 0, 0, 0, 0, 0, 1, 2, 3, 4))
+	case 5:
+		return refpar2.Frame(setID, mk("RFSC\x00\x00\x00\x00"), append(append([]byte{}, id0[:]...), make([]byte, 20)...))
+	case 6:
+		return refpar2.Frame(setID, mk("PkdMain\x00"), make([]byte, 24))
+	case 7:
+		return refpar2.Frame(setID, mk("PkdRecvS"), make([]byte, 12))
+	case 8:
+		return refpar2.Frame(setID, mk("CommUni\x00"), make([]byte, 20)) // hash of the ASCII comment + an all-null comment
+	case 9:
+		return refpar2.Frame(setID, mk("CommUni\x00"), make([]byte, 16)) // empty comment array
+	case 10:
+		return refpar2.Frame(setID, mk("CommASCI"), []byte{0, 0, 0, 0})
+	case 11:
+		return refpar2.Frame(setID, mk("UniFileN"), append(append([]byte{}, id0[:]...), 0, 0, 0, 0))
+	case 12: // packed main: subslice size 0, slice size of the set, no files
+		b := make([]byte, 20)
+		b[8] = byte(sliceSize)
+		return refpar2.Frame(setID, mk("PkdMain\x00"), b)
+	case 13: // packed main: subslice 4, slice size of the set, one file id
+		b := make([]byte, 20)
+		b[0], b[8], b[16] = 4, byte(sliceSize), 1
+		return refpar2.Frame(setID, mk("PkdMain\x00"), append(b, id0[:]...))
+	case 14:
+		return refpar2.Frame(setID, mk("PkdRecvS"), make([]byte, 16))
+	case 15:
+		return refpar2.Frame(setID, mk("FileSlic"), append(append([]byte{}, id0[:]...), make([]byte, 8)...))
+	}
+	return nil
+}
